@@ -223,6 +223,17 @@ inst_value(int h, struct inst_s x, struct dt_dt_s *out, char *text, size_t tsz)
 	return 1;
 }
 
+/* does the value print as itself (else its conversion/printing is C01/C02's business) */
+static int
+prints_as_itself(int h, struct inst_s x, struct dt_dt_s v)
+{
+	char buf[96] = "";
+	int64_t gi;
+	int s60;
+	dt_strfdt(buf, sizeof(buf), held_ofmt[h], v);
+	return dec_datetime(held_olayout[h], buf, &gi, &s60) && gi == x.u && s60 == x.s60;
+}
+
 #define MAXI	512
 static struct inst_s I[MAXI];
 static int nI;
@@ -490,7 +501,7 @@ static const int rs_reps[] = {H_YMD, H_YMCW, H_DAISY, H_SEXY, H_YWD, H_YD};
 static const char*
 nleap_name(int n)
 {
-	return n == 0 ? "none" : n == 1 ? "one" : "several";
+	return n == 0 ? "none" : "some";
 }
 
 static int
@@ -506,14 +517,15 @@ judge_rs(int h, int ia, int ib, int replay)
 	EX_CTR(c_eval, "evaluations");
 	EX_CTR(c_nontriv, "nontrivial");
 	EX_CTR(c_skipb, "skipped:instant before the first table entry (1972-01-01): the table has no value");
-	EX_CTR(c_skipv, "skipped:the representation has no such value (text not accepted, or no name for 23:59:60)");
+	EX_CTR(c_skipv, "skipped:the representation has no such value (text not accepted, no name for 23:59:60, or it does not print as itself: C09/C02/C01)");
 
 	if (!m_tai(I[ia], &taia) || !m_tai(I[ib], &taib)) {
 		++*c_skipb;
 		return 0;
 	}
 	*c_eval += 2;
-	if (!inst_value(h, I[ia], &a, ta, sizeof(ta)) || !inst_value(h, I[ib], &b, tb, sizeof(tb))) {
+	if (!inst_value(h, I[ia], &a, ta, sizeof(ta)) || !inst_value(h, I[ib], &b, tb, sizeof(tb)) ||
+	    !prints_as_itself(h, I[ia], a) || !prints_as_itself(h, I[ib], b)) {
 		++*c_skipv;
 		return 0;
 	}
@@ -530,8 +542,9 @@ judge_rs(int h, int ia, int ib, int replay)
 		       ta, tb, held_name[h], got, (long long)want, (long long)((I[ib].u - I[ib].s60) - (I[ia].u - I[ia].s60)), m_leaps_between(taia, taib));
 	}
 	if (!ok || !got[0] || *ep || g != want) {
-		snprintf(key, sizeof(key), "rS rep=%s sign=%c leaps-between=%s on-60=%s", held_name[h], want < 0 ? '-' : want > 0 ? '+' : '0',
-			 nleap_name(m_leaps_between(taia, taib)), I[ia].s60 && I[ib].s60 ? "both" : I[ia].s60 ? "first" : I[ib].s60 ? "second" : "no");
+		snprintf(key, sizeof(key), "rS rep=%s sign=%c %sleaps-between=%s on-60=%s", held_name[h], want < 0 ? '-' : want > 0 ? '+' : '0',
+			 llabs(want) >= 2147483648LL ? "span=2^31-or-more " : I[ia].u >= 2147483648LL || I[ib].u >= 2147483648LL ? "operand=at-or-after-2^31 " : "",
+			 nleap_name(m_leaps_between(taia, taib)), I[ia].s60 || I[ib].s60 ? "yes" : "no");
 		snprintf(cas, sizeof(cas), "RS %d %d %d", h, ia, ib);
 		snprintf(cmd, sizeof(cmd), "ddiff %s%s%s%s %s -f %%rS", held_ifmt[h] ? "-i '" : "", held_ifmt[h] ? held_ifmt[h] : "", held_ifmt[h] ? "' " : "", ta, tb);
 		ex_viol(key, (double)llabs(want), cas, h == H_DAISY ? NULL : cmd,
@@ -596,7 +609,7 @@ judge_addrs(int h, int ia, int k, int replay)
 	EX_CTR(c_eval, "evaluations");
 	EX_CTR(c_nontriv, "nontrivial");
 	EX_CTR(c_skipb, "skipped:instant before the first table entry (1972-01-01): the table has no value");
-	EX_CTR(c_skipv, "skipped:the representation has no such value (text not accepted, or no name for 23:59:60)");
+	EX_CTR(c_skipv, "skipped:the representation has no such value (text not accepted, no name for 23:59:60, or it does not print as itself: C09/C02/C01)");
 	EX_CTR(c_skipr, "skipped:result before 1972-01-01 or after 4095-12-31");
 
 	if (!d->ok) {
@@ -609,7 +622,7 @@ judge_addrs(int h, int ia, int k, int replay)
 		return 0;
 	}
 	++*c_eval;
-	if (!inst_value(h, I[ia], &a, ta, sizeof(ta))) {
+	if (!inst_value(h, I[ia], &a, ta, sizeof(ta)) || !prints_as_itself(h, I[ia], a)) {
 		++*c_skipv;
 		return 0;
 	}
